@@ -1,7 +1,7 @@
 (* C05  Output uses only the opcodes of the requested protocol, with the right header. *)
 From Coq Require Import List NArith Bool.
 From PF Require Import Opcodes RefTable Config Sim Ref Lex Envelope Oracles.
-From PF.proofs Require Import Refine Run PropsR Examples.
+From PF.proofs Require Import Refine Run PropsR LexRT PropsB Examples.
 
 (* token part, for every run of the envelope: every token's opcode was introduced in protocol
    <= v according to CPython's table (ref_proto, RefTable.v), including the collapse tail; for
@@ -13,6 +13,14 @@ Theorem C05_tokens : forall c framed steps,
   /\ header_ok (c_version c) ts = true.
 Proof. exact C05_R. Qed.
 Print Assumptions C05_tokens.
+
+(* on the bytes: the output lexes, every opcode is of protocol <= v, the header is right, and a
+   protocol-0 pickle consists of 7-bit bytes only (oracle_C05 checks all of that) *)
+Theorem C05_bytes : forall c framed steps,
+  safeb c = true -> run_R c framed steps -> fits c framed steps ->
+  oracle_C05 (c_version c) (serialize (run_tokens c framed steps)) = true.
+Proof. exact C05_B. Qed.
+Print Assumptions C05_bytes.
 
 Example C05_nonvacuous : safeb (ex_cfg V2 11) = true /\ run_R (ex_cfg V2 11) false ex_steps1.
 Proof. exact (conj (proj1 ex_safe) ex_run1). Qed.
